@@ -38,6 +38,19 @@ def same_userinfo(u, quoted, strip_fragment, default_protocol):
     return U.opt_decode(u0) == U.opt_decode(u1) and U.opt_decode(p0) == U.opt_decode(p1)
 
 
+def _idn_canon(host):
+    """lower-cased host with every punycode label CPython's idna codec accepts written in Unicode (others kept)"""
+    out = []
+    for lab in host.lower().split("."):
+        if lab.startswith("xn--"):
+            try:
+                lab = lab.encode("ascii").decode("idna")
+            except UnicodeError:
+                pass
+        out.append(lab)
+    return ".".join(out)
+
+
 def same_host(u, quoted, strip_fragment, default_protocol):
     b = _both(u, quoted, strip_fragment, default_protocol)
     if b is None or b[1] is None:
@@ -45,7 +58,7 @@ def same_host(u, quoted, strip_fragment, default_protocol):
     h0, h1 = b[0][3], b[1][3]
     if h0 is None or h1 is None:
         return (h0 is None) == (h1 is None) or h0 == "" or h1 == ""
-    return h0.lower() == h1.lower()
+    return h0.lower() == h1.lower() or _idn_canon(h0) == _idn_canon(h1)
 
 
 def same_port(u, quoted, strip_fragment, default_protocol):
